@@ -18,6 +18,7 @@ FAMILIES = {
     "abuseB": {"quick": 400, "thorough": 8000},     # legal prefix + protocol violations / legal-but-unusual frames + probe, both roles
     "floodBs": {"quick": 50, "thorough": 1500},     # hostile scripted client floods a real server with small limits (rapid reset, refused streams, tiny/empty DATA, CONTINUATION, PING/SETTINGS, stream errors, oversize lists), slow / non-accepting application, blocked writes; dense statistics
     "floodBc": {"quick": 50, "thorough": 1500},     # hostile scripted server floods a real client (PUSH_PROMISE, 1xx, tiny/empty DATA, PING/SETTINGS, CONTINUATION, promise+reset)
+    "wuBurstBs": {"quick": 40, "thorough": 1000},   # 40-130 streams owe a WINDOW_UPDATE at once while the endpoint's writes are blocked and its write buffer is nearly full
     "inlineA": {"quick": 600, "thorough": 12000},   # C20: handle operations executed INSIDE the read / write / flush callbacks of the connection task (parked handles), real client <-> real server
     "threadsA": {"quick": 1500, "thorough": 40000},   # C20: REAL parallel executions: connections and every request half on their own OS threads; handle call + log entry atomic under the transport's mutex, so the trace is a valid linearization
     "conformSend": {"quick": 40, "thorough": 1500},
@@ -30,7 +31,7 @@ SEND_SLICE = {"module": "MC_Send", "cfg_quick": "MC_Send_quick.cfg", "cfg_thorou
               "constants": "2 streams, IW=2 CW=3 MF=2 units, sends {3}, WU {2}, SETTINGS {0,3}, reserve {2}, 1 reset; every interleaving with a frame parked in the codec",
               "timeout_thorough": 2400, "coverage": False}
 
-WIRE_AB = ["mixA", "mixAd", "bpReset", "flowBs", "flowBc", "capRace", "ctlB", "concBc", "faultA", "goawayBc", "shutdownA", "abuseB", "shutdownBs", "floodBs", "floodBc"]
+WIRE_AB = ["mixA", "mixAd", "bpReset", "flowBs", "flowBc", "capRace", "ctlB", "concBc", "faultA", "goawayBc", "shutdownA", "abuseB", "shutdownBs", "floodBs", "floodBc", "wuBurstBs"]
 
 RECV_SLICE = {"module": "MC_Recv", "cfg_quick": "MC_Recv_quick.cfg", "cfg_thorough": "MC_Recv_thorough.cfg",
               "constants": "2 streams, IW=6 CW=8, DATA {0,1,6} x padding {0,1} x END_STREAM, release {1,2}, 1 handle drop, 1 reset either side, target {6,10}, SETTINGS {1,8} applied at the peer's ACK; legal peer; leak rules at every quiescent state",
